@@ -133,6 +133,7 @@ theorem extT4_of_extT3 (kinds : List Kind) (e : Ext) (h : ExtT3 kinds e) : ExtT4
     | same => exact h.elim
     | drop => exact h.elim
     | sames _ => exact h.elim
+    | mixed _ => exact h.elim
     | many vs =>
       obtain ⟨k, e, _⟩ := h
       exact Or.inr ⟨k, e⟩
@@ -173,6 +174,7 @@ theorem extT3_of_extT1 (kinds : List Kind) (hk : ∀ k ∈ kinds, k = .oneToOne)
     | many _ => exact h.elim
     | drop => exact h.elim
     | sames _ => exact h.elim
+    | mixed _ => exact h.elim
 
 /-- source → node 0 (one-to-many, 2 out ports); out[0] → node 1, out[1] → node 2; both feed node 3's in-port
 (fan-in); node 3 → sink 0 -/
